@@ -299,6 +299,9 @@ def transpose(op, input, *args):
 @register_qbytestensor_op([torch.ops.aten.t])
 def transpose2d(op, input):
     out_data = op(input._data)
+    if input.ndim < 2:
+        # Transposing a scalar or a vector is a no-op
+        return QBytesTensor(input.qtype, input.axis, input.size(), input.stride(), out_data, input._scale)
     out_scale = input._scale
     out_axis = input.axis
     # Manually reverse size and stride because we cannot trust the out_data shape
